@@ -8,6 +8,7 @@ mapped to a real scratch directory.  The command runs in-process in a forked chi
   * scripted uid, stdin, random.randint.
 """
 import builtins
+import datetime
 import errno as errno_mod
 import io
 import json
@@ -125,6 +126,10 @@ def nodes_to_snapshot(nodes):
 # the child: patches, tracer, injection
 # ------------------------------------------------------------------------------------------------
 
+CLOCK_T0 = datetime.datetime(2031, 1, 1, 0, 0, 0)
+CLOCK_STEP = 3600
+
+
 class Crash(BaseException):
     pass
 
@@ -147,6 +152,7 @@ class Tracer:
         self.orig = {}
         self.internal = 0          # >0 while the harness itself uses os.* (never counted, never faulted)
         self.reads = 0             # stat-class calls issued by the code under test
+        self.read_log = []         # (kind, model path) of each of them, when plan["log_reads"]
         self.on_crash = None
         self.gate = None           # (req_w, ack_r): block before every call until the scheduler grants a step
         self.yields = 0
@@ -183,6 +189,11 @@ class Tracer:
         self.yield_point()
         k = self.reads
         self.reads += 1
+        if self.plan.get("log_reads") and len(self.read_log) < 5000:
+            try:
+                self.read_log.append([kind, self.model(os.path.abspath(os.fsencode(path))).hex()])
+            except Exception:
+                self.read_log.append([kind, ""])
         if self.reads > self.budget * 20:
             raise Crash("budget")
         for f in self.plan.get("read_faults", []):
@@ -494,6 +505,10 @@ def child_main(sb, world, plan, wfd, gate=None):
         os.environ.update(env)
         if world["cmd"] == "put":
             os.environ["TRASH_PUT_FAKE_UID_FOR_TESTING"] = str(world.get("uid", 0))
+            # a clock that moves on its own: one hour per mutating call issued so far, so that "DeletionDate is the time
+            # of trashing" can be told from "some time during this run" (see putcheck: oracle C03w)
+            import trashcli.put.clock as _clk
+            _clk.RealClock.now = lambda self: CLOCK_T0 + datetime.timedelta(seconds=CLOCK_STEP * tracer.count)
         os.chdir(sb.to_real(world.get("cwd", MODEL_ROOT)))
         sys.argv = ["trash-" + world["cmd"]] + [os.fsdecode(sb.to_real(a)) for a in world.get("argv", [])]
         out_b, err_b = io.BytesIO(), io.BytesIO()
@@ -545,6 +560,7 @@ def child_main(sb, world, plan, wfd, gate=None):
     result["trace"] = tracer.trace
     result["escapes"] = tracer.escapes
     result["reads"] = tracer.reads
+    result["read_log"] = tracer.read_log
     result["states"] = [[[p.hex(), k, d.hex(), m, t, g.hex()] for (p, k, d, m, t, g) in s] for s in tracer.states]
     data = json.dumps(result).encode()
     w = tracer.orig.get("write", os.write)
@@ -596,7 +612,7 @@ def run_world(world, plan=None, keep=None, facts=None):
             "before": before, "after": after,
             "states": [[(bytes.fromhex(p), k, bytes.fromhex(d), m, t, bytes.fromhex(g)) for (p, k, d, m, t, g) in s]
                        for s in res["states"]],
-            "t0": res.get("t0"), "t1": res.get("t1"), "facts": fact_values, "reads": res.get("reads", 0),
+            "t0": res.get("t0"), "t1": res.get("t1"), "facts": fact_values, "reads": res.get("reads", 0), "read_log": res.get("read_log", []),
         }
         if res["escapes"]:
             obs["escaped"] = True
